@@ -24,6 +24,8 @@ def run_all(facts):
         for x in fnd:
             x['key'] = facts.stabilise(x['key'])
             x['function_id'] = x.get('function')
+            fb = facts.original.get(x.get('function')) or next((b_ for b_ in facts.original.values() if b_.q == x.get('function')), None)
+            x['function_at'] = fb.raw.get('span') if fb is not None else None
             x['function'] = facts.stabilise(str(x.get('function')))
     return out
 
